@@ -538,7 +538,8 @@ def execute(scn, ctx):
             if res["ok"] and ok_inputs and model.groups:
                 e = np.stack(exp, axis=0)
                 got = np.asarray(res["value"])
-                if got.shape != e.shape or not M.same(np.asarray(got, dtype=float), np.asarray(e, dtype=float)):
+                # (== semantics: the library's and the model's order of -0.0 / 0.0 among tied scores may differ)
+                if got.shape != e.shape or not np.array_equal(np.asarray(got, dtype=float), np.asarray(e, dtype=float), equal_nan=True):
                     viol.append({"invariant": "C12.groupwise", "tags": tags,
                                  "detail": f"groupwise({mname}) = {got.tolist()} but the metric applied group by group gives {e.tolist()} [op {step}]"})
             elif not res["ok"] and ok_inputs and model.groups and not res["interrupted"]:
